@@ -1079,17 +1079,26 @@ Qed.
 Lemma bits_val_testbit bs i : (i < length bs)%nat -> N.testbit (bits_val bs) (N.of_nat i) = nth i bs false.
 Proof. intros H. rewrite <- (nbits_testbit (length bs) (bits_val bs) i H). now rewrite nbits_bits_val. Qed.
 
-Lemma ty_ok_tuple l : ty_ok (TTuple l) = forallb ty_ok l && (2 <=? ty_size (TTuple l))%nat.
+Lemma ty_ne_tuple l : ty_ne (TTuple l) = match l with [] => false | _ => true end && forallb ty_ne l.
+Proof. reflexivity. Qed.
+Lemma ty_good_tuple l : ty_good (TTuple l) = match l with [] => false | _ => true end && forallb ty_good l.
 Proof. reflexivity. Qed.
 
-Lemma sub_type_ok : forall p t t', ty_ok t = true -> sub_type t p = Some t' -> ty_ok t' = true.
+Lemma sub_type_ne : forall p t t', ty_ne t = true -> sub_type t p = Some t' -> ty_ne t' = true.
 Proof.
   induction p as [|i q IH]; intros t t' Hok H; cbn [sub_type] in H; [now injection H as <-|].
   destruct t as [|w|i0 f0| |l]; try discriminate;
     try (destruct (_ <? _)%nat; [|discriminate]; now apply (IH TBool)).
   destruct (nth_error l i) as [ti|] eqn:E; [|discriminate]. apply (IH ti); [|exact H].
-  rewrite ty_ok_tuple in Hok. apply andb_true_iff in Hok as [Hok _]. rewrite forallb_forall in Hok.
+  rewrite ty_ne_tuple in Hok. apply andb_true_iff in Hok as [_ Hok]. rewrite forallb_forall in Hok.
   apply Hok. eapply nth_error_In; eassumption.
+Qed.
+
+Lemma ty_good_ne : forall t, ty_good t = true -> ty_ne t = true.
+Proof.
+  induction t as [|w|i f| |l IH] using ty_ind2; intros H; try reflexivity.
+  rewrite ty_good_tuple in H. rewrite ty_ne_tuple. apply andb_true_iff in H as [H1 H2]. rewrite H1. cbn [andb].
+  rewrite forallb_forall in H2 |- *. rewrite Forall_forall in IH. intros x Hx. apply IH; [exact Hx|now apply H2].
 Qed.
 
 Section Sound.
@@ -1168,9 +1177,10 @@ Section Sound.
     - rewrite <- (map_beval_sym (s :: s' :: bv)), <- (flat_syms (s :: s' :: bv)). reflexivity.
   Qed.
 
-  Definition env_tyok (G : env) : Prop := forall x t bv, lookup G x = Some (t, bv) -> ty_ok t = true.
+  (* no bound type has an empty tuple inside *)
+  Definition env_ne (G : env) : Prop := forall x t bv, lookup G x = Some (t, bv) -> ty_ne t = true.
 
-  Lemma trans_sub_sound G V x p r v0 v : env_ok G V -> env_canon G -> env_tyok G ->
+  Lemma trans_sub_sound G V x p r v0 v : env_ok G V -> env_canon G -> env_ne G ->
     trans_sub num G x p = Some r -> lookup V x = Some v0 -> sub_val v0 p = Some v -> sem rho r v.
   Proof.
     intros Hok Hcan Htok Ht Hv0 Hv. unfold trans_sub in Ht.
@@ -1180,7 +1190,7 @@ Section Sound.
     rewrite (Hcan _ _ _ E) in Hd.
     apply obind_some in Ht as (t' & Hty & Ht).
     pose proof (sub_walk p t [x] v0 t' v Hd Hty Hv) as Hw. change ([x] ++ p) with (x :: p) in Hw.
-    pose proof (sub_type_ok p t t' (Htok _ _ _ E) Hty) as Ok'.
+    pose proof (sub_type_ne p t t' (Htok _ _ _ E) Hty) as Ok'.
     assert (Hr : forall T, T = t' -> T <> TBool -> T <> TTuple [] ->
               r = (T, Nd (map (fun s => L (sym num s)) (arg_names (x :: p) T)))).
     { intros T -> N1 N2. destruct t' as [|w|i0 f0| |[|a l]]; try congruence; now injection Ht as <-. }
@@ -1251,7 +1261,7 @@ Section Main.
   Variables (G : env) (V : venv).
   Hypothesis Hok : env_ok num rho G V.
   Hypothesis Hcan : env_canon G.
-  Hypothesis Htok : env_tyok G.
+  Hypothesis Htok : env_ne G.
 
   Definition sound_at (e : pexp) : Prop :=
     forall r v, trans_exp num G e = Some r -> eval_exp V e = Some v -> sem rho r v.
@@ -1322,7 +1332,7 @@ End Main.
 
 (* every expression of the language, every environment, every assignment *)
 Theorem trans_exp_sound num rho G V e r v :
-  env_ok num rho G V -> env_canon G -> env_tyok G ->
+  env_ok num rho G V -> env_canon G -> env_ne G ->
   trans_exp num G e = Some r -> eval_exp V e = Some v -> den rho r = Some v.
 Proof. intros Hok Hcan Htok Ht Hv. exact (trans_exp_sound_at num rho G V Hok Hcan Htok e r v Ht Hv). Qed.
 
@@ -1690,6 +1700,11 @@ Proof.
   apply andb_true_iff in H as [H1 H2]. f_equal; [now apply S|now apply IH].
 Qed.
 
+(* every bound type is ty_good: no empty tuple, no sized component of fewer than 2 bits *)
+Definition env_good (G : env) : Prop := forall x t bv, lookup G x = Some (t, bv) -> ty_good t = true.
+Lemma env_good_ne G : env_good G -> env_ne G.
+Proof. intros H x t bv E. apply ty_good_ne. exact (H x t bv E). Qed.
+
 Lemma to_exp_long num bv : (2 <= length bv)%nat ->
   to_exp num bv = Some (Nd (map (fun s => L (sym num s)) bv)).
 Proof. destruct bv as [|a [|b r]]; cbn [length]; try lia. reflexivity. Qed.
@@ -1700,7 +1715,8 @@ Section Wf.
   Variables (G : env) (V : venv).
   Hypothesis Hok : env_ok num rho G V.
   Hypothesis Hcan : env_canon G.
-  Hypothesis Htok : env_tyok G.
+  Hypothesis Hgood : env_good G.
+  Let Htok : env_ne G := env_good_ne G Hgood.
 
   (* every translated value that has a meaning is shaped as its type *)
   Theorem trans_exp_wf : forall e r v, trans_exp num G e = Some r -> eval_exp V e = Some v -> wf_res r.
@@ -1709,14 +1725,15 @@ Section Wf.
       using pexp_ind2; intros r v Ht Hv.
     - (* Name *)
       cbn [trans_exp] in Ht. destruct (lookup G x) as [[t bv]|] eqn:E; [|discriminate].
-      apply option_map_some in Ht as (tr & Hx & ->). pose proof (Hcan _ _ _ E) as ->. pose proof (Htok _ _ _ E) as Ok.
-      destruct (ty_eq t TBool) eqn:TB.
-      + apply ty_eq_true in TB. subst t. cbn in Hx. injection Hx as <-. apply wf_bool.
-      + apply ty_eq_false in TB.
-        assert (L2 : (2 <= length (arg_names [x] t))%nat).
-        { rewrite arg_names_length. destruct t as [|w|i f| |l]; try congruence; cbn [ty_ok] in Ok;
-            try (now apply Nat.leb_le in Ok). apply andb_true_iff in Ok as [_ Ok]. now apply Nat.leb_le in Ok. }
-        rewrite (to_exp_long num _ L2) in Hx. injection Hx as <-. now apply wf_syms.
+      apply option_map_some in Ht as (tr & Hx & ->). pose proof (Hcan _ _ _ E) as ->. pose proof (Hgood _ _ _ E) as Ok.
+      destruct t as [|w|i f| |l]; try exact I.
+      + cbn in Hx. injection Hx as <-. apply wf_bool.
+      + assert (L2 : (2 <= length (arg_names [x] (TQint w)))%nat) by (rewrite arg_names_length; now apply Nat.leb_le in Ok).
+        rewrite (to_exp_long num _ L2) in Hx. injection Hx as <-. exact (wf_syms num (TQint w) (arg_names [x] (TQint w)) ltac:(discriminate)).
+      + assert (L2 : (2 <= length (arg_names [x] (TQfixed i f)))%nat) by (rewrite arg_names_length; now apply Nat.leb_le in Ok).
+        rewrite (to_exp_long num _ L2) in Hx. injection Hx as <-. exact (wf_syms num (TQfixed i f) (arg_names [x] (TQfixed i f)) ltac:(discriminate)).
+      + assert (L2 : (2 <= length (arg_names [x] TQchar))%nat) by (rewrite arg_names_length; cbn; lia).
+        rewrite (to_exp_long num _ L2) in Hx. injection Hx as <-. exact (wf_syms num TQchar (arg_names [x] TQchar) ltac:(discriminate)).
     - (* Subscript *)
       cbn [trans_exp] in Ht. unfold trans_sub in Ht. destruct p as [|i q]; [discriminate|].
       destruct (lookup G x) as [[t bv]|]; [|discriminate]. apply obind_some in Ht as (t' & _ & Ht).
@@ -1771,41 +1788,337 @@ Section Wf.
   Qed.
 End Wf.
 
-(* after the regrouping, decompose_to_symbols gives the names of the type *)
-Lemma regroup_canon rho x r v : sem rho r v -> wf_res r -> ty_ok (fst r) = true ->
+(* a tree without leaves defines nothing *)
+Lemma decompose_flat_nil : forall v base, flat v = [] -> decompose base v = [].
+Proof.
+  induction v as [e|l IH] using vtree_ind2; intros base H; [discriminate|].
+  rewrite decompose_nd. cbn [flat] in H. generalize 0%nat.
+  induction IH as [|x l Hx _ IHl]; intros k; cbn [decompose_go flat_map] in *; [reflexivity|].
+  apply app_eq_nil in H as [H1 H2]. now rewrite (Hx _ H1), (IHl H2).
+Qed.
+
+(* after the regrouping, decompose_to_symbols gives the names of the type: NO side condition *)
+Lemma regroup_canon rho x r v : sem rho r v -> wf_res r ->
   map fst (decompose [x] (snd (regroup_value r))) = arg_names [x] (fst r).
 Proof.
-  intros Hs W Ok. destruct (decode_type _ _ _ Hs) as [_ Ln]. rewrite map_length in Ln.
+  intros Hs W. destruct (decode_type _ _ _ Hs) as [_ Ln]. rewrite map_length in Ln.
   unfold regroup_value, wf_res in *. destruct r as [t tr]. cbn [fst snd] in *.
   destruct t as [|w|i f| |[|a l]].
   - destruct W as (e & ->). reflexivity.
   - destruct W as (l & ->). rewrite flat_of_list in Ln. cbn [snd]. rewrite decompose_of_list. now rewrite Ln.
   - destruct W as (l & ->). rewrite flat_of_list in Ln. cbn [snd]. rewrite decompose_of_list. now rewrite Ln.
   - destruct W as (l & ->). rewrite flat_of_list in Ln. cbn [snd]. rewrite decompose_of_list. now rewrite Ln.
-  - discriminate.
-  - rewrite ty_ok_tuple in Ok. apply andb_true_iff in Ok as [_ Ok]. apply Nat.leb_le in Ok.
-    rewrite Ln, Nat.eqb_refl. cbn [snd]. now apply decompose_regroup.
+  - cbn [snd]. change (ty_size (TTuple [])) with 0%nat in Ln. apply length_zero_iff_nil in Ln.
+    now rewrite (decompose_flat_nil _ _ Ln).
+  - rewrite Ln, Nat.eqb_refl. cbn [snd]. now apply decompose_regroup.
+Qed.
+
+(* ================================================================== *)
+(* the types of the values: no one-bit sized value, no empty tuple     *)
+(* ================================================================== *)
+Definition vgood (v : value) : Prop := ty_good (type_of v) = true.
+
+Theorem shipped_qint_ge2 : forallb (fun w => 2 <=? w)%nat shipped_qint = true.
+Proof. vm_compute. reflexivity. Qed.
+Theorem shipped_qfixed_ge2 : forallb (fun t => 2 <=? fst t + snd t)%nat shipped_qfixed = true.
+Proof. vm_compute. reflexivity. Qed.
+
+Lemma shipped_qint_in w : existsb (Nat.eqb w) shipped_qint = true -> (2 <= w)%nat.
+Proof.
+  intros H. apply existsb_exists in H as (w' & Hin & E). apply Nat.eqb_eq in E. subst w'.
+  pose proof shipped_qint_ge2 as P. rewrite forallb_forall in P. specialize (P _ Hin). now apply Nat.leb_le.
+Qed.
+Lemma shipped_qfixed_in i f : In (i, f) shipped_qfixed -> (2 <= i + f)%nat.
+Proof.
+  intros Hin. pose proof shipped_qfixed_ge2 as P. rewrite forallb_forall in P. specialize (P _ Hin).
+  now apply Nat.leb_le in P.
+Qed.
+Lemma is_shipped_in i f : is_shipped_qfixed i f = true -> (2 <= i + f)%nat.
+Proof.
+  unfold is_shipped_qfixed. intros H. apply existsb_exists in H as ([i' f'] & Hin & E). cbn [fst snd] in E.
+  apply andb_true_iff in E as [E1 E2]. apply Nat.eqb_eq in E1, E2. subst. now apply shipped_qfixed_in.
+Qed.
+
+Lemma const_float_search_in ts x i f bits : const_float_search ts x = Some (i, f, bits) -> In (i, f) ts.
+Proof.
+  induction ts as [|[i0 f0] ts IH]; cbn [const_float_search]; [discriminate|].
+  destruct (_ && _); [intros [= <- <- _]; now left|intros H; right; now apply IH].
+Qed.
+
+Lemma vgood_vi w n : (2 <= w)%nat -> vgood (VI w n).
+Proof. intros H. unfold vgood. cbn [type_of ty_good ty_size]. now apply Nat.leb_le. Qed.
+Lemma vgood_vf i f n : (2 <= i + f)%nat -> vgood (VF i f n).
+Proof. intros H. unfold vgood. cbn [type_of ty_good ty_size]. now apply Nat.leb_le. Qed.
+Lemma vgood_vi_inv w n : vgood (VI w n) -> (2 <= w)%nat.
+Proof. unfold vgood. cbn [type_of ty_good ty_size]. apply Nat.leb_le. Qed.
+Lemma vgood_vf_inv i f n : vgood (VF i f n) -> (2 <= i + f)%nat.
+Proof. unfold vgood. cbn [type_of ty_good ty_size]. apply Nat.leb_le. Qed.
+
+Lemma eval_const_good c v : eval_const c = Some v -> vgood v.
+Proof.
+  destruct c as [b|z|neg x|cs|]; cbn [eval_const]; try discriminate.
+  - now intros [= <-].
+  - destruct (z <? 0)%Z; [discriminate|]. intros H. apply option_map_some in H as (w & Hw & ->).
+    apply vgood_vi. unfold const_width in Hw. apply find_some in Hw as [Hin _]. cbn [In] in Hin.
+    repeat (destruct Hin as [<-|Hin]; [lia|]). destruct Hin.
+  - destruct neg; [discriminate|]. destruct (const_float_search _ _) as [[[i f] bits]|] eqn:E; [|discriminate].
+    intros [= <-]. apply vgood_vf. apply shipped_qfixed_in. eapply const_float_search_in; eassumption.
+  - destruct cs as [|c [|]]; try discriminate. destruct (c <? 256); [|discriminate]. now intros [= <-].
+Qed.
+
+Lemma eval_cast_good t c v : eval_cast t c = Some v -> vgood v.
+Proof.
+  unfold eval_cast. destruct (known_type t) eqn:K; cbn [negb]; [|discriminate].
+  destruct t as [|w|i f| |l]; try discriminate; destruct c as [b|z|neg x|cs|]; try discriminate.
+  - intros [= <-]. apply vgood_vi. now apply shipped_qint_in.
+  - destruct (z <? 0)%Z; [discriminate|]. intros [= <-]. apply vgood_vf. now apply is_shipped_in.
+  - destruct neg; [discriminate|]. intros [= <-]. apply vgood_vf. now apply is_shipped_in.
+  - destruct cs as [|c [|]]; try discriminate. destruct (c <? 256); [|discriminate]. now intros [= <-].
+Qed.
+
+Lemma sub_val_good : forall p v0 v, vgood v0 -> sub_val v0 p = Some v -> vgood v.
+Proof.
+  induction p as [|i q IH]; intros v0 v G0 H; cbn [sub_val] in H; [now injection H as <-|].
+  destruct v0 as [b|w n| | |l]; try discriminate.
+  - destruct (_ <? _)%nat; [|discriminate]. apply (IH (VB (N.testbit n (N.of_nat i))) v); [reflexivity|exact H].
+  - destruct (nth_error l i) as [v'|] eqn:E; [|discriminate]. apply (IH v'); [|exact H].
+    unfold vgood in G0. cbn [type_of] in G0. rewrite ty_good_tuple in G0. apply andb_true_iff in G0 as [_ G0].
+    rewrite forallb_forall in G0. apply G0. apply in_map. eapply nth_error_In; eassumption.
+Qed.
+
+Lemma vgood_vt vs : vs <> [] -> Forall vgood vs -> vgood (VT vs).
+Proof.
+  intros Hne HF. unfold vgood. cbn [type_of]. rewrite ty_good_tuple. apply andb_true_iff. split.
+  - destruct vs; [congruence|reflexivity].
+  - apply forallb_forall. intros t Ht. apply in_map_iff in Ht as (v & <- & Hv). rewrite Forall_forall in HF. now apply HF.
+Qed.
+
+Lemma eval_if_good vc vt vf v : vgood vt -> vgood vf -> eval_if vc vt vf = Some v -> vgood v.
+Proof.
+  intros Gt Gf. destruct vc as [b| | | |]; try discriminate. cbn [eval_if].
+  destruct (ty_eq _ _); [intros [= <-]; now destruct b|].
+  destruct vt as [|wt x| | |]; try discriminate. destruct vf as [|wf y| | |]; try discriminate.
+  intros [= <-]. apply vgood_vi. apply vgood_vi_inv in Gt. lia.
+Qed.
+
+Lemma mul_sizing_ge2 k : (2 <= mul_sizing k)%nat.
+Proof. unfold mul_sizing. repeat (destruct (_ <=? _)%nat; [lia|]). lia. Qed.
+
+Lemma eval_bin_good op sh a b v : vgood a -> vgood b -> eval_bin op sh a b = Some v -> vgood v.
+Proof.
+  intros Ga Gb.
+  destruct a as [p|wl x|i1 f1 x| |], b as [q|wr y|i2 f2 y| |]; cbn [eval_bin]; try discriminate.
+  - destruct op; try discriminate; now intros [= <-].
+  - apply vgood_vi_inv in Ga. apply vgood_vi_inv in Gb.
+    destruct op; try discriminate; try (intros [= <-]; apply vgood_vi; lia).
+    + destruct (_ && _); [|discriminate]. intros [= <-]. apply vgood_vi. apply mul_sizing_ge2.
+    + destruct (_ && _); [|discriminate]. intros [= <-]. apply vgood_vi. lia.
+    + destruct sh as [[k|]|]; try discriminate. intros [= <-]. now apply vgood_vi.
+    + destruct sh as [[k|]|]; try discriminate. intros [= <-]. now apply vgood_vi.
+  - apply vgood_vf_inv in Gb. destruct op; try discriminate. intros [= <-]. now apply vgood_vf.
+  - apply vgood_vf_inv in Ga. destruct op; try discriminate. intros [= <-]. now apply vgood_vf.
+  - apply vgood_vf_inv in Ga. apply vgood_vf_inv in Gb.
+    destruct (fix_align i1 f1 i2 f2) as [[i f]|] eqn:E; [|discriminate].
+    apply fix_align_spec in E as (_ & -> & ->).
+    destruct op; try discriminate; intros [= <-]; apply vgood_vf; lia.
+Qed.
+
+Section Good.
+  Variable num : sname -> nat.
+  Variable rho : nat -> bool.
+  Variables (G : env) (V : venv).
+  Hypothesis Hok : env_ok num rho G V.
+  Hypothesis Hcan : env_canon G.
+  Hypothesis Hgood : env_good G.
+  Let Htok : env_ne G := env_good_ne G Hgood.
+
+  Definition good_at (e : pexp) : Prop :=
+    pexp_ne e = true -> forall r v, trans_exp num G e = Some r -> eval_exp V e = Some v -> vgood v.
+
+  Lemma good_list l : Forall good_at l -> forallb pexp_ne l = true ->
+    forall rs vs, trans_list num G l = Some rs -> eval_list V l = Some vs -> Forall vgood vs.
+  Proof.
+    induction 1 as [|e l He _ IH]; intros Hn rs vs Ht Hv; cbn [trans_list eval_list] in Ht, Hv.
+    - injection Hv as <-. constructor.
+    - cbn [forallb] in Hn. apply andb_true_iff in Hn as [N1 N2].
+      destruct (trans_exp num G e) as [a|] eqn:Ea; [|discriminate].
+      destruct (trans_list num G l) as [b|] eqn:Eb; [|discriminate]. injection Ht as <-.
+      destruct (eval_exp V e) as [va|] eqn:Eva; [|discriminate].
+      destruct (eval_list V l) as [vb|] eqn:Evb; [|discriminate]. injection Hv as <-.
+      constructor; [exact (He N1 _ _ Ea Eva)|exact (IH N2 _ _ eq_refl eq_refl)].
+  Qed.
+
+  Lemma eval_list_nonnil l vs : eval_list V l = Some vs -> l <> [] -> vs <> [].
+  Proof.
+    destruct l as [|e l]; [congruence|]. cbn [eval_list]. destruct (eval_exp V e); [|discriminate].
+    destruct (eval_list V l); [|discriminate]. intros [= <-] _. discriminate.
+  Qed.
+
+  (* the type of every value the evaluator gives to an accepted expression is ty_good *)
+  Theorem trans_exp_good : forall e, good_at e.
+  Proof.
+    induction e as [x|x p|op l IH|op a IHa|c t f IHc IHt IHf|c|l|l IH|op a b IHa IHb|op a b IHa IHb|t c|a IHa|a IHa|]
+      using pexp_ind2; intros Hn r v Ht Hv; cbn [pexp_ne] in Hn.
+    - cbn [trans_exp] in Ht. cbn [eval_exp] in Hv. destruct (lookup G x) as [[t bv]|] eqn:E; [|discriminate].
+      destruct (Hok _ _ _ E) as (v' & Hv' & Hd). rewrite Hv in Hv'. injection Hv' as <-.
+      destruct (decode_type _ _ _ Hd) as [T _]. unfold vgood. rewrite T. exact (Hgood _ _ _ E).
+    - cbn [trans_exp] in Ht. unfold trans_sub in Ht. cbn [eval_exp] in Hv.
+      destruct p as [|i q]; [discriminate|]. apply obind_some in Hv as (v0 & Hv0 & Hv).
+      destruct (lookup G x) as [[t bv]|] eqn:E; [|discriminate].
+      destruct (Hok _ _ _ E) as (v' & Hv' & Hd). rewrite Hv0 in Hv'. injection Hv' as <-.
+      destruct (decode_type _ _ _ Hd) as [T _].
+      apply (sub_val_good _ _ _ (eq_ind_r (fun t0 => ty_good t0 = true) (Hgood _ _ _ E) T) Hv).
+    - change (eval_exp V (EBoolOp op l)) with (obind (eval_list V l) (eval_boolop op)) in Hv.
+      apply obind_some in Hv as (vs & _ & Hv). unfold eval_boolop in Hv. destruct vs; [discriminate|].
+      apply option_map_some in Hv as (bs & _ & ->). reflexivity.
+    - cbn [trans_exp] in Ht. cbn [eval_exp] in Hv.
+      apply obind_some in Ht as (ra & Hra & _). apply obind_some in Hv as (va & Hva & Hv).
+      pose proof (IHa Hn _ _ Hra Hva) as Ga.
+      destruct op, va; cbn [eval_un] in Hv; try discriminate; injection Hv as <-; [reflexivity|].
+      apply vgood_vi. now apply vgood_vi_inv in Ga.
+    - apply andb_true_iff in Hn as [Hn N3]. apply andb_true_iff in Hn as [N1 N2].
+      cbn [trans_exp] in Ht. cbn [eval_exp] in Hv.
+      apply obind_some in Ht as (rc & Hrc & Ht). apply obind_some in Ht as (rt & Hrt & Ht).
+      apply obind_some in Ht as (rf & Hrf & _).
+      apply obind_some in Hv as (vc & Hvc & Hv). apply obind_some in Hv as (vt & Hvt & Hv).
+      apply obind_some in Hv as (vf & Hvf & Hv).
+      exact (eval_if_good _ _ _ _ (IHt N2 _ _ Hrt Hvt) (IHf N3 _ _ Hrf Hvf) Hv).
+    - cbn [eval_exp] in Hv. now apply eval_const_good in Hv.
+    - cbn [eval_exp] in Hv. apply option_map_some in Hv as (vs & Hvs & ->).
+      apply vgood_vt.
+      + destruct l as [|c l]; [discriminate|]. cbn [eval_const_elts] in Hvs.
+        destruct c; try discriminate; destruct (eval_const _); try discriminate;
+          destruct (eval_const_elts l); try discriminate; injection Hvs as <-; discriminate.
+      + clear Hn Ht. revert vs Hvs. induction l as [|c l IHl]; intros vs Hvs; cbn [eval_const_elts] in Hvs.
+        * injection Hvs as <-. constructor.
+        * destruct c as [b|z|neg x|cs|]; try discriminate.
+          -- destruct (eval_const (CInt z)) as [v0|] eqn:E0; [|discriminate].
+             destruct (eval_const_elts l) as [vs'|]; [|discriminate]. injection Hvs as <-.
+             constructor; [now apply eval_const_good in E0|now apply IHl].
+          -- destruct (eval_const (CFloat neg x)) as [v0|] eqn:E0; [|discriminate].
+             destruct (eval_const_elts l) as [vs'|]; [|discriminate]. injection Hvs as <-.
+             constructor; [now apply eval_const_good in E0|now apply IHl].
+          -- destruct (eval_const (CStr cs)) as [v0|] eqn:E0; [|discriminate].
+             destruct (eval_const_elts l) as [vs'|]; [|discriminate]. injection Hvs as <-.
+             constructor; [now apply eval_const_good in E0|now apply IHl].
+    - change (trans_exp num G (ETuple l)) with
+        (option_map (fun rs => (TTuple (map fst rs), Nd (map snd rs))) (trans_list num G l)) in Ht.
+      change (eval_exp V (ETuple l)) with (option_map VT (eval_list V l)) in Hv.
+      apply option_map_some in Ht as (rs & Hrs & _). apply option_map_some in Hv as (vs & Hvs & ->).
+      apply andb_true_iff in Hn as [N1 N2]. apply vgood_vt.
+      + apply (eval_list_nonnil l vs Hvs). destruct l; [discriminate|discriminate].
+      + exact (good_list l IH N2 rs vs Hrs Hvs).
+    - cbn [eval_exp] in Hv. apply obind_some in Hv as (va & _ & Hv). apply obind_some in Hv as (vb & _ & Hv).
+      destruct (eval_cmp_vb _ _ _ _ Hv) as (x & ->). reflexivity.
+    - apply andb_true_iff in Hn as [N1 N2]. cbn [trans_exp] in Ht. cbn [eval_exp] in Hv.
+      apply obind_some in Ht as (ra & Hra & Ht). apply obind_some in Ht as (rb & Hrb & _).
+      apply obind_some in Hv as (va & Hva & Hv). apply obind_some in Hv as (vb & Hvb & Hv).
+      exact (eval_bin_good _ _ _ _ _ (IHa N1 _ _ Hra Hva) (IHb N2 _ _ Hrb Hvb) Hv).
+    - cbn [eval_exp] in Hv. now apply eval_cast_good in Hv.
+    - cbn [trans_exp] in Ht. cbn [eval_exp] in Hv.
+      apply obind_some in Ht as (ra & Hra & Ht). apply obind_some in Hv as (va & Hva & Hv).
+      pose proof (IHa Hn _ _ Hra Hva) as Ga.
+      pose proof (trans_exp_sound num rho G V a ra va Hok Hcan Htok Hra Hva) as Hs.
+      destruct va as [|w n|i f n| |]; cbn [eval_int] in Hv; try discriminate; injection Hv as <-; [exact Ga|].
+      pose proof (sem_type _ _ _ Hs) as T. cbn [type_of] in T. unfold trans_int in Ht. rewrite <- T in Ht.
+      apply obind_some in Ht as (l & Hl & Ht).
+      assert (Htx : to_texp ra = Some (fst ra, l)) by (unfold to_texp; now rewrite Hl).
+      destruct (sem_qfixed _ _ _ _ _ _ Htx (eq_sym T) Hs) as (_ & Ln & _). cbn [snd] in Ln.
+      destruct (existsb (Nat.eqb (length (firstn i l))) shipped_qint) eqn:Sh; [|discriminate].
+      rewrite firstn_length, Ln in Sh. replace (Nat.min i (i + f)) with i in Sh by lia.
+      apply vgood_vi. now apply shipped_qint_in.
+    - cbn [trans_exp] in Ht. cbn [eval_exp] in Hv.
+      apply obind_some in Ht as (ra & Hra & _). apply obind_some in Hv as (va & Hva & Hv).
+      pose proof (IHa Hn _ _ Hra Hva) as Ga.
+      destruct va as [|w n|i f n| |]; cbn [eval_float] in Hv; try discriminate; [|injection Hv as <-; exact Ga].
+      destruct (qfixed_for_size w) as [tf|] eqn:Q; [|discriminate].
+      destruct (qfixed_for_size_spec _ _ Q) as (f & ->). injection Hv as <-.
+      apply vgood_vi_inv in Ga. apply vgood_vf. lia.
+    - discriminate.
+  Qed.
+End Good.
+
+(* ================================================================== *)
+(* bit names are distinct; an injective numbering keeps them apart     *)
+(* ================================================================== *)
+Lemma NoDup_app_intro {A} (a b : list A) : NoDup a -> NoDup b -> (forall x, In x a -> ~ In x b) -> NoDup (a ++ b).
+Proof.
+  induction a as [|x a IH]; intros Ha Hb Hd; [exact Hb|]. cbn [app]. inversion Ha as [|? ? Hx Ha']; subst.
+  constructor.
+  - rewrite in_app_iff. intros [H|H]; [now apply Hx|]. apply (Hd x); [now left|exact H].
+  - apply IH; [exact Ha'|exact Hb|]. intros y Hy. apply Hd. now right.
+Qed.
+
+Lemma NoDup_map_inj {A B} (f : A -> B) l : (forall x y, f x = f y -> x = y) -> NoDup l -> NoDup (map f l).
+Proof.
+  intros Hf. induction 1 as [|x l Hx _ IH]; cbn [map]; constructor; [|exact IH].
+  intros H. apply in_map_iff in H as (y & E & Hy). apply Hf in E. now subst.
+Qed.
+
+Lemma nodupb_true l : NoDup l -> nodupb l = true.
+Proof.
+  induction 1 as [|x l Hx _ IH]; cbn [nodupb]; [reflexivity|]. rewrite IH, andb_true_r. apply negb_true_iff.
+  destruct (existsb (Nat.eqb x) l) eqn:E; [|reflexivity]. apply existsb_exists in E as (y & Hy & E).
+  apply Nat.eqb_eq in E. now subst.
+Qed.
+
+Lemma names_go_prefix base : forall l k n,
+  (forall t b m, In t l -> In m (arg_names b t) -> exists suf, m = b ++ suf) ->
+  In n (names_go base l k) -> exists k' suf, (k <= k')%nat /\ n = base ++ k' :: suf.
+Proof.
+  induction l as [|x l IH]; intros k n Hp H; cbn [names_go] in H; [destruct H|].
+  apply in_app_iff in H as [H|H].
+  - destruct (Hp x _ _ (or_introl eq_refl) H) as (suf & ->). exists k, suf. split; [lia|]. now rewrite <- app_assoc.
+  - destruct (IH (S k) n (fun t b m Ht => Hp t b m (or_intror Ht)) H) as (k' & suf & Hk & ->).
+    exists k', suf. split; [lia|reflexivity].
+Qed.
+
+Lemma arg_names_prefix : forall t base n, In n (arg_names base t) -> exists suf, n = base ++ suf.
+Proof.
+  induction t as [|w|i f| |l IH] using ty_ind2; intros base n H;
+    try (cbn [arg_names] in H; unfold bit_names in H; apply in_map_iff in H as (k & <- & _); now eexists).
+  - destruct H as [<-|[]]. exists []. now rewrite app_nil_r.
+  - rewrite arg_names_tuple in H. rewrite Forall_forall in IH.
+    destruct (names_go_prefix base l 0 n (fun t b m Ht => IH t Ht b m) H) as (k' & suf & _ & ->). now eexists.
+Qed.
+
+Lemma arg_names_nodup : forall t base, NoDup (arg_names base t).
+Proof.
+  assert (B : forall base n, NoDup (bit_names base n)).
+  { intros base n. unfold bit_names. apply NoDup_map_inj; [|apply seq_NoDup].
+    intros x y E. apply app_inv_head in E. now injection E. }
+  induction t as [|w|i f| |l IH] using ty_ind2; intros base; try apply B.
+  - constructor; [intros []|constructor].
+  - rewrite arg_names_tuple. generalize 0%nat.
+    induction IH as [|x l Hx Hl IHl]; intros k; cbn [names_go]; [constructor|].
+    apply NoDup_app_intro; [apply Hx|apply IHl|].
+    intros n H1 H2. destruct (arg_names_prefix _ _ _ H1) as (s1 & ->).
+    rewrite Forall_forall in Hl.
+    destruct (names_go_prefix base l (S k) _ (fun t b m _ => arg_names_prefix t b m) H2) as (k' & s2 & Hk & E).
+    rewrite <- app_assoc in E. apply app_inv_head in E. cbn [app] in E. injection E as E _. lia.
 Qed.
 
 Section Stmt.
   Variable num : sname -> nat.
+  (* distinct bit names have distinct numbers *)
+  Hypothesis Hinj : forall a b, num a = num b -> a = b.
 
-  (* binding a translated value (nested as its type) to a name *)
+  (* binding a translated value whose definitions carry the names of its type *)
   Lemma bind_res_sound rho G V x r v :
-    env_ok num rho G V -> env_canon G -> env_tyok G -> sem rho r v ->
+    env_ok num rho G V -> env_canon G -> sem rho r v ->
     map fst (decompose [x] (snd r)) = arg_names [x] (fst r) ->
-    res_guard num G x r = true ->
-    let ds := decompose [x] (snd r) in
-    let rho' := run_defs rho (numbered num ds) in
-    env_ok num rho' (bind G x (fst r, map fst ds)) (bind V x v)
-    /\ env_canon (bind G x (fst r, map fst ds)) /\ env_tyok (bind G x (fst r, map fst ds)).
+    seq_ok (numbered num (decompose [x] (snd r))) = true ->
+    env_ok num (run_defs rho (numbered num (decompose [x] (snd r))))
+           (bind G x (fst r, map fst (decompose [x] (snd r)))) (bind V x v)
+    /\ env_canon (bind G x (fst r, map fst (decompose [x] (snd r)))).
   Proof.
-    intros Hok Hcan Htok Hs Hnames Hg. cbv zeta. unfold res_guard in Hg. cbv zeta in Hg.
-    set (ds := decompose [x] (snd r)) in *. set (rho' := run_defs rho (numbered num ds)).
-    apply andb_true_iff in Hg as [Hg Hfresh]. apply andb_true_iff in Hg as [Hg Hnd].
-    apply andb_true_iff in Hg as [Hty Hseq].
-    destruct (run_defs_seq _ rho Hseq Hnd) as [A B]. subst rho' ds.
-    split; [|split].
+    intros Hok Hcan Hs Hnames Hseq.
+    assert (Hnum : map fst (numbered num (decompose [x] (snd r))) = map num (arg_names [x] (fst r))).
+    { unfold numbered. rewrite map_map. cbn [fst]. rewrite <- Hnames. now rewrite map_map. }
+    assert (Hnd : nodupb (map fst (numbered num (decompose [x] (snd r)))) = true).
+    { rewrite Hnum. apply nodupb_true. apply NoDup_map_inj; [exact Hinj|apply arg_names_nodup]. }
+    destruct (run_defs_seq _ rho Hseq Hnd) as [A B].
+    split.
     - intros y t bv Hy. rewrite lookup_bind in Hy. rewrite lookup_bind. destruct (Nat.eqb_spec y x) as [->|Hyx].
       + injection Hy as <- <-. exists v. split; [reflexivity|].
         set (ds := decompose [x] (snd r)) in *. set (rho' := run_defs rho (numbered num ds)) in *.
@@ -1815,53 +2128,58 @@ Section Stmt.
         rewrite Forall_forall in B. exact (B d Hd).
       + destruct (Hok _ _ _ Hy) as (v0 & Hv0 & Hd). exists v0. split; [exact Hv0|].
         rewrite <- Hd. f_equal. apply map_ext_in. intros s Hin. unfold rbit. apply A.
-        unfold fresh_for in Hfresh. rewrite forallb_forall in Hfresh.
-        specialize (Hfresh _ (lookup_in _ _ _ Hy)). cbn [fst snd] in Hfresh.
-        apply orb_true_iff in Hfresh as [Hf|Hf]; [apply Nat.eqb_eq in Hf; congruence|].
-        rewrite forallb_forall in Hf. specialize (Hf s Hin). apply negb_true_iff in Hf.
-        intros Hin'. refine (eq_true_false_abs _ _ Hf).
-        apply existsb_exists. exists (num s). split; [exact Hin'|apply Nat.eqb_refl].
+        rewrite Hnum. intros Hin'. apply in_map_iff in Hin' as (n & En & Hn). apply Hinj in En. subst n.
+        rewrite (Hcan _ _ _ Hy) in Hin.
+        destruct (arg_names_prefix _ _ _ Hin) as (s1 & E1). destruct (arg_names_prefix _ _ _ Hn) as (s2 & E2).
+        rewrite E1 in E2. cbn [app] in E2. injection E2 as E2 _. congruence.
     - intros y t bv Hy. rewrite lookup_bind in Hy. destruct (Nat.eqb_spec y x) as [->|Hyx].
       + injection Hy as <- <-. exact Hnames.
       + now apply Hcan in Hy.
-    - intros y t bv Hy. rewrite lookup_bind in Hy. destruct (Nat.eqb_spec y x) as [->|Hyx].
-      + injection Hy as <- <-. exact Hty.
-      + now apply Htok in Hy.
   Qed.
 
-  Theorem trans_stmt_sound rho G V rt s ds G' V' :
-    env_ok num rho G V -> env_canon G -> env_tyok G -> stmt_guard num G rt s = true ->
-    trans_stmt num G rt s = Some (ds, G') -> eval_stmt V rt s = Some V' ->
-    env_ok num (run_defs rho (numbered num ds)) G' V' /\ env_canon G' /\ env_tyok G'.
+  Lemma env_good_bind G x t bv : env_good G -> ty_good t = true -> env_good (bind G x (t, bv)).
   Proof.
-    intros Hok Hcan Htok Hg Ht Hv. destruct s as [x e|e|e|]; cbn [trans_stmt eval_stmt stmt_guard] in *.
+    intros Hg Ht y t' bv' Hy. rewrite lookup_bind in Hy. destruct (Nat.eqb y x); [now injection Hy as <- _|].
+    exact (Hg _ _ _ Hy).
+  Qed.
+
+  (* a statement: the only per-program side condition left is seq_ok (stmt_guard) *)
+  Theorem trans_stmt_sound rho G V rt s ds G' V' :
+    env_ok num rho G V -> env_canon G -> env_good G -> ty_good rt = true ->
+    stmt_ne s = true -> stmt_guard num G rt s = true ->
+    trans_stmt num G rt s = Some (ds, G') -> eval_stmt V rt s = Some V' ->
+    env_ok num (run_defs rho (numbered num ds)) G' V' /\ env_canon G' /\ env_good G'.
+  Proof.
+    intros Hok Hcan Hgood Hrt Hne Hg Ht Hv. pose proof (env_good_ne G Hgood) as Htok.
+    destruct s as [x e|e|e|]; cbn [trans_stmt eval_stmt stmt_ne] in *.
     - (* Assign *)
-      unfold trans_assign in Ht.
+      unfold stmt_guard, stmt_guard_g in Hg. unfold trans_assign in Ht.
       destruct (trans_exp num G e) as [r0|] eqn:Et; [|discriminate]. injection Ht as <- <-.
       apply option_map_some in Hv as (v & Hv & ->).
       pose proof (trans_exp_sound num rho G V e _ v Hok Hcan Htok Et Hv) as Hs.
-      pose proof (trans_exp_wf num rho G V Hok Hcan Htok e _ v Et Hv) as W.
-      assert (Ok : ty_ok (fst r0) = true).
-      { unfold res_guard in Hg. rewrite regroup_value_type in Hg.
-        apply andb_true_iff in Hg as [Hg _]. apply andb_true_iff in Hg as [Hg _]. now apply andb_true_iff in Hg as [Hg _]. }
-      pose proof (regroup_canon rho x r0 v Hs W Ok) as Hn. rewrite <- (regroup_value_type r0) in Hn.
-      exact (bind_res_sound rho G V x (regroup_value r0) v Hok Hcan Htok (regroup_value_sem rho _ _ Hs) Hn Hg).
+      pose proof (trans_exp_wf num rho G V Hok Hcan Hgood e _ v Et Hv) as W.
+      pose proof (trans_exp_good num rho G V Hok Hcan Hgood e Hne _ v Et Hv) as Gv.
+      unfold res_guard_g in Hg. rewrite andb_true_r in Hg.
+      pose proof (regroup_canon rho x r0 v Hs W) as Hn. rewrite <- (regroup_value_type r0) in Hn.
+      destruct (bind_res_sound rho G V x (regroup_value r0) v Hok Hcan (regroup_value_sem rho _ _ Hs) Hn Hg) as [A B].
+      split; [exact A|split; [exact B|]]. apply env_good_bind; [exact Hgood|].
+      rewrite regroup_value_type. unfold vgood in Gv. now rewrite (sem_type _ _ _ Hs) in Gv.
     - (* Return *)
-      unfold trans_return in Ht.
+      unfold stmt_guard, stmt_guard_g in Hg. unfold trans_return in Ht.
       apply obind_some in Ht as (r0 & Et & Ht). apply obind_some in Ht as (r1 & Ec & Ht).
       rewrite Et in Hg. cbn [obind] in Hg. rewrite Ec in Hg.
       destruct (lookup G ret_id); [discriminate|]. injection Ht as <- <-.
       apply obind_some in Hv as (v & Hv & Hv'). apply obind_some in Hv' as (v' & Hc & Hv').
       destruct (lookup V ret_id); [discriminate|]. injection Hv' as <-.
       pose proof (trans_exp_sound num rho G V e _ v Hok Hcan Htok Et Hv) as Hs.
-      pose proof (trans_exp_wf num rho G V Hok Hcan Htok e _ v Et Hv) as W.
-      destruct (ret_coerce_sound rho rt r0 v r1 v' Hs Ec Hc) as [Hs1 _].
+      pose proof (trans_exp_wf num rho G V Hok Hcan Hgood e _ v Et Hv) as W.
+      destruct (ret_coerce_sound rho rt r0 v r1 v' Hs Ec Hc) as [Hs1 Hty].
       pose proof (ret_coerce_wf rt r0 r1 W Ec) as W1.
-      assert (Ok : ty_ok (fst r1) = true).
-      { unfold res_guard in Hg. rewrite regroup_value_type in Hg.
-        apply andb_true_iff in Hg as [Hg _]. apply andb_true_iff in Hg as [Hg _]. now apply andb_true_iff in Hg as [Hg _]. }
-      pose proof (regroup_canon rho ret_id r1 v' Hs1 W1 Ok) as Hn. rewrite <- (regroup_value_type r1) in Hn.
-      exact (bind_res_sound rho G V ret_id (regroup_value r1) v' Hok Hcan Htok (regroup_value_sem rho _ _ Hs1) Hn Hg).
+      unfold res_guard_g in Hg. rewrite andb_true_r in Hg.
+      pose proof (regroup_canon rho ret_id r1 v' Hs1 W1) as Hn. rewrite <- (regroup_value_type r1) in Hn.
+      destruct (bind_res_sound rho G V ret_id (regroup_value r1) v' Hok Hcan (regroup_value_sem rho _ _ Hs1) Hn Hg) as [A B].
+      split; [exact A|split; [exact B|]]. apply env_good_bind; [exact Hgood|].
+      rewrite regroup_value_type, Hty. exact Hrt.
     - (* Expr *)
       destruct (trans_exp num G e); [|discriminate]. injection Ht as <- <-.
       apply option_map_some in Hv as (v & _ & ->). now repeat split.
@@ -1872,19 +2190,21 @@ Section Stmt.
   Proof. unfold run_defs. apply fold_left_app. Qed.
 
   Theorem trans_body_sound : forall body rho G V rt ds G' V',
-    env_ok num rho G V -> env_canon G -> env_tyok G -> body_guard num G rt body = true ->
+    env_ok num rho G V -> env_canon G -> env_good G -> ty_good rt = true ->
+    forallb stmt_ne body = true -> body_guard num G rt body = true ->
     trans_body num G rt body = Some (ds, G') -> eval_body V rt body = Some V' ->
-    env_ok num (run_defs rho (numbered num ds)) G' V' /\ env_canon G' /\ env_tyok G'.
+    env_ok num (run_defs rho (numbered num ds)) G' V' /\ env_canon G' /\ env_good G'.
   Proof.
-    induction body as [|s body IH]; intros rho G V rt ds G' V' Hok Hcan Htok Hg Ht Hv.
+    induction body as [|s body IH]; intros rho G V rt ds G' V' Hok Hcan Hgood Hrt Hne Hg Ht Hv.
     - cbn in Ht, Hv. injection Ht as <- <-. injection Hv as <-. now repeat split.
-    - cbn [trans_body eval_body body_guard] in *. apply andb_true_iff in Hg as [Hg1 Hg2].
+    - unfold body_guard in Hg. cbn [trans_body eval_body body_guard_g forallb] in *.
+      apply andb_true_iff in Hg as [Hg1 Hg2]. apply andb_true_iff in Hne as [N1 N2].
       apply obind_some in Ht as ([ds1 G1] & Ht1 & Ht). apply obind_some in Ht as ([ds2 G2] & Ht2 & Ht).
       cbn [fst snd] in *. injection Ht as <- <-. apply obind_some in Hv as (V1 & Hv1 & Hv2).
       rewrite Ht1 in Hg2. cbn [snd] in Hg2.
-      destruct (trans_stmt_sound rho G V rt s ds1 G1 V1 Hok Hcan Htok Hg1 Ht1 Hv1) as (Hok1 & Hcan1 & Htok1).
+      destruct (trans_stmt_sound rho G V rt s ds1 G1 V1 Hok Hcan Hgood Hrt N1 Hg1 Ht1 Hv1) as (Hok1 & Hcan1 & Hgood1).
       unfold numbered. rewrite map_app, run_defs_app. fold (numbered num ds1). fold (numbered num ds2).
-      exact (IH _ _ _ _ _ _ _ Hok1 Hcan1 Htok1 Hg2 Ht2 Hv2).
+      exact (IH _ _ _ _ _ _ _ Hok1 Hcan1 Hgood1 Hrt N2 Hg2 Ht2 Hv2).
   Qed.
 End Stmt.
 
@@ -1957,11 +2277,21 @@ Proof.
     destruct Step as [D1 R1]. exact (IH _ _ _ _ _ _ Hw2 D1 R1 Ht2 Hv2).
 Qed.
 
-(* no argument is called _ret; no argument type has a one-bit sized / tuple component *)
+(* no argument is called _ret; every argument type is ty_good (no empty tuple, no sized component
+   of fewer than 2 bits) *)
 Definition wf_args (args : list (ident * ty)) : bool :=
-  forallb (fun a => negb (Nat.eqb (fst a) ret_id)) args && forallb (fun a => ty_ok (snd a)) args.
+  forallb (fun a => negb (Nat.eqb (fst a) ret_id)) args && forallb (fun a => ty_good (snd a)) args.
 
-Lemma arg_env_tyok args : forallb (fun a : ident * ty => ty_ok (snd a)) args = true -> env_tyok (arg_env args).
+Lemma arg_env_ne args : forallb (fun a : ident * ty => ty_ne (snd a)) args = true -> env_ne (arg_env args).
+Proof.
+  induction args as [|[x t] args IH]; intros H y ty bv Hy; [discriminate|].
+  cbn [forallb snd] in H. apply andb_true_iff in H as [H1 H2].
+  cbn [arg_env map lookup fst snd] in Hy. destruct (Nat.eqb x y).
+  - now injection Hy as <- <-.
+  - now apply (IH H2 y ty bv).
+Qed.
+
+Lemma arg_env_good args : forallb (fun a : ident * ty => ty_good (snd a)) args = true -> env_good (arg_env args).
 Proof.
   induction args as [|[x t] args IH]; intros H y ty bv Hy; [discriminate|].
   cbn [forallb snd] in H. apply andb_true_iff in H as [H1 H2].
@@ -1982,21 +2312,23 @@ Qed.
 (* the definition list translate_ast returns, run in order on the argument bits, leaves on the
    declared return bits the value the reference evaluator returns *)
 Theorem trans_fun_sound num rho args rt body vs lf v :
+  (forall a b, num a = num b -> a = b) ->
   trans_fun num args rt body = Some lf -> eval_fun args rt body vs = Some v ->
-  wf_args args = true -> wf_body body = true -> body_guard num (arg_env args) rt body = true ->
+  wf_args args = true -> ty_good rt = true -> wf_body body = true -> forallb stmt_ne body = true ->
+  body_guard num (arg_env args) rt body = true ->
   args_encoded num rho args vs ->
   lf_ret lf = (rt, arg_names [ret_id] rt) /\
   decode rt (map (fun s => run_defs rho (numbered num (lf_defs lf)) (num s)) (arg_names [ret_id] rt)) = Some v.
 Proof.
-  intros Ht Hv Hwa Hwf Hg Henc. unfold wf_args in Hwa. apply andb_true_iff in Hwa as [Hwa Hwt].
+  intros Hinj Ht Hv Hwa Hgrt Hwf Hne Hg Henc. unfold wf_args in Hwa. apply andb_true_iff in Hwa as [Hwa Hwt].
   unfold trans_fun in Ht.
   destruct (negb (distinct_ids (map fst args))); [discriminate|].
   apply option_map_some in Ht as ([ds G'] & Hb & ->). cbn [lf_ret lf_defs fst snd]. split; [reflexivity|].
   unfold eval_fun in Hv. destruct (negb (Nat.eqb (length args) (length vs))) eqn:Hlen; [discriminate|].
   destruct (negb (forallb _ (combine args vs))); [discriminate|].
   apply obind_some in Hv as (V' & Hev & Hret).
-  destruct (trans_body_sound num body rho _ _ rt ds G' V' (arg_env_ok num rho args vs Henc) (arg_env_canon args)
-              (arg_env_tyok args Hwt) Hg Hb Hev) as (Hok & Hcan & _).
+  destruct (trans_body_sound num Hinj body rho _ _ rt ds G' V' (arg_env_ok num rho args vs Henc) (arg_env_canon args)
+              (arg_env_good args Hwt) Hgrt Hne Hg Hb Hev) as (Hok & Hcan & _).
   assert (Hdom0 : dom_sub (combine (map fst args) vs) (arg_env args)).
   { apply negb_false_iff, Nat.eqb_eq in Hlen. clear -Hlen. revert vs Hlen.
     induction args as [|[x t] args IH]; intros [|v0 vs] Hlen y vy Hy; try discriminate.
@@ -2090,6 +2422,36 @@ Proof. now split. Qed.
 (* ================================================================== *)
 (* where the faithful model makes the full-strength statements false   *)
 (* ================================================================== *)
+(* an injective numbering of bit names exists: [x; i; j] |-> 2^x (2 (2^i (2 (2^j) + 1)) + 1) *)
+Fixpoint enc (l : list nat) : nat :=
+  match l with
+  | [] => 0
+  | x :: r => 2 ^ x * (2 * enc r + 1)
+  end%nat.
+
+Lemma pow2_odd_inj : forall x y a b, (2 ^ x * (2 * a + 1) = 2 ^ y * (2 * b + 1))%nat -> x = y /\ a = b.
+Proof.
+  induction x as [|x IH]; intros [|y] a b H.
+  - cbn [Nat.pow] in H. split; [reflexivity|lia].
+  - exfalso. rewrite Nat.pow_succ_r', <- Nat.mul_assoc in H. cbn [Nat.pow] in H.
+    generalize dependent (2 ^ y * (2 * b + 1))%nat. intros m H. lia.
+  - exfalso. rewrite Nat.pow_succ_r', <- Nat.mul_assoc in H. cbn [Nat.pow] in H.
+    generalize dependent (2 ^ x * (2 * a + 1))%nat. intros m H. lia.
+  - rewrite !Nat.pow_succ_r', <- !Nat.mul_assoc in H.
+    destruct (IH y a b) as [-> ->]; [lia|now split].
+Qed.
+
+Lemma enc_inj : forall a b, enc a = enc b -> a = b.
+Proof.
+  induction a as [|x a IH]; intros [|y b] H; cbn [enc] in H; try reflexivity.
+  - exfalso. pose proof (Nat.pow_nonzero 2 y ltac:(lia)). nia.
+  - exfalso. pose proof (Nat.pow_nonzero 2 x ltac:(lia)). nia.
+  - apply pow2_odd_inj in H as [-> H]. f_equal. now apply IH.
+Qed.
+
+(* the assignment that is true exactly on the listed bit names *)
+Definition rho_of (ones : list sname) : nat -> bool := fun k => existsb (fun s => Nat.eqb k (enc s)) ones.
+
 Definition tab_num (tab : list (sname * nat)) (d : nat) : sname -> nat :=
   fun s => match find (fun p => sname_eqb (fst p) s) tab with Some p => snd p | None => d end.
 
@@ -2100,16 +2462,16 @@ Definition ex_sub_V : venv := [(1%nat, VT [VT [VB true; VI 2 1]; VB false])].
 Definition ex_sub_num := tab_num [([1;0;0], 0); ([1;0;1;0], 1); ([1;0;1;1], 2); ([1;1], 3)]%nat 9.
 Definition ex_sub_rho : nat -> bool := fun k => Nat.eqb k 0 || Nat.eqb k 1.
 
-Lemma ex_sub_env : env_ok ex_sub_num ex_sub_rho ex_sub_G ex_sub_V /\ env_canon ex_sub_G /\ env_tyok ex_sub_G.
+Lemma ex_sub_env : env_ok ex_sub_num ex_sub_rho ex_sub_G ex_sub_V /\ env_canon ex_sub_G /\ env_ne ex_sub_G.
 Proof.
-  split; [|split; [apply arg_env_canon|apply arg_env_tyok; reflexivity]].
+  split; [|split; [apply arg_env_canon|apply arg_env_ne; reflexivity]].
   apply (arg_env_ok ex_sub_num ex_sub_rho [(1%nat, TTuple [TTuple [TBool; TQint 2]; TBool])]
                     [VT [VT [VB true; VI 2 1]; VB false]]).
   constructor; [vm_compute; reflexivity|constructor].
 Qed.
 
 Lemma subscript_of_tuple_sound num rho G V x p r v :
-  env_ok num rho G V -> env_canon G -> env_tyok G ->
+  env_ok num rho G V -> env_canon G -> env_ne G ->
   trans_exp num G (ESub x p) = Some r -> eval_exp V (ESub x p) = Some v ->
   den rho r = Some v /\ type_of v = fst r.
 Proof.
@@ -2121,29 +2483,50 @@ Qed.
    `d = a; return d[1]` with a: Tuple[Qint[2], bool]: inside the guards, for EVERY argument value *)
 Definition ex_copy_args : list (ident * ty) := [(1%nat, TTuple [TQint 2; TBool])].
 Definition ex_copy_body : list pstmt := [SAssign 2%nat (EName 1%nat); SReturn (ESub 2%nat [1%nat])].
-Definition ex_copy_num :=
-  tab_num [([1;0;0], 0); ([1;0;1], 1); ([1;1], 2); ([2;0;0], 4); ([2;0;1], 5); ([2;1], 6); ([0], 7)]%nat 3.
-
 Lemma tuple_copy_sound rho vs v :
-  args_encoded ex_copy_num rho ex_copy_args vs -> eval_fun ex_copy_args TBool ex_copy_body vs = Some v ->
-  exists lf, trans_fun ex_copy_num ex_copy_args TBool ex_copy_body = Some lf /\
+  args_encoded enc rho ex_copy_args vs -> eval_fun ex_copy_args TBool ex_copy_body vs = Some v ->
+  exists lf, trans_fun enc ex_copy_args TBool ex_copy_body = Some lf /\
     map fst (lf_defs lf) = [[2; 0; 0]; [2; 0; 1]; [2; 1]; [0]]%nat /\
-    decode TBool (map (fun s => run_defs rho (numbered ex_copy_num (lf_defs lf)) (ex_copy_num s))
+    decode TBool (map (fun s => run_defs rho (numbered enc (lf_defs lf)) (enc s))
                       (arg_names [ret_id] TBool)) = Some v.
 Proof.
   intros Henc Hev.
-  destruct (trans_fun ex_copy_num ex_copy_args TBool ex_copy_body) as [lf|] eqn:E; [|vm_compute in E; discriminate].
+  destruct (trans_fun enc ex_copy_args TBool ex_copy_body) as [lf|] eqn:E; [|vm_compute in E; discriminate].
   exists lf. split; [reflexivity|]. split.
   - vm_compute in E. injection E as <-. reflexivity.
-  - refine (proj2 (trans_fun_sound ex_copy_num rho ex_copy_args TBool ex_copy_body vs lf v E Hev _ _ _ Henc));
+  - refine (proj2 (trans_fun_sound enc rho ex_copy_args TBool ex_copy_body vs lf v enc_inj E Hev _ _ _ _ _ Henc));
       vm_compute; reflexivity.
+Qed.
+
+(* (2') the remaining side condition seq_ok does NOT follow from translate_statement: given the
+   UN-normalised `a = a + 1; return a` (a: Qint[2]) it emits  a.0 := ~a.0 ; a.1 := a.0 ^ a.1,  whose
+   second definition reads the NEW a.0 when the list is run in order.  (qlasskit.ast2ast never hands
+   this over: it rewrites a self-referencing assignment through a temporary `__a`.) *)
+Definition ex_self_args : list (ident * ty) := [(1%nat, TQint 2)].
+Definition ex_self_body : list pstmt :=
+  [SAssign 1%nat (EBin AoAdd (EName 1%nat) (EConst (CInt 1))); SReturn (EName 1%nat)].
+
+Lemma seq_ok_needed :
+  exists rho vs lf v,
+    trans_fun enc ex_self_args (TQint 2) ex_self_body = Some lf /\
+    eval_fun ex_self_args (TQint 2) ex_self_body vs = Some v /\
+    wf_args ex_self_args = true /\ ty_good (TQint 2) = true /\ wf_body ex_self_body = true /\
+    forallb stmt_ne ex_self_body = true /\ args_encoded enc rho ex_self_args vs /\
+    body_guard enc (arg_env ex_self_args) (TQint 2) ex_self_body = false /\
+    decode (TQint 2) (map (fun s => run_defs rho (numbered enc (lf_defs lf)) (enc s)) (arg_names [ret_id] (TQint 2)))
+      <> Some v.
+Proof.
+  exists (rho_of [[1; 0]]%nat), [VI 2 1]. do 2 eexists.
+  refine (conj _ (conj _ (conj _ (conj _ (conj _ (conj _ (conj _ (conj _ _)))))))); try (vm_compute; reflexivity).
+  - constructor; [vm_compute; reflexivity|constructor].
+  - vm_compute. discriminate.
 Qed.
 
 (* (3) "an accepted program has a meaning" is false: operands of different kinds are combined on
    their raw bit lists (Qint ^ Qchar), a value of another kind is cropped to the declared return
    type (`return 'a'` where Qint[2] is declared) *)
 Lemma accepted_without_meaning :
-  (exists num rho G V e r, env_ok num rho G V /\ env_canon G /\ env_tyok G /\
+  (exists num rho G V e r, env_ok num rho G V /\ env_canon G /\ env_ne G /\
      trans_exp num G e = Some r /\ eval_exp V e = None)
   /\ (exists num args rt body lf, trans_fun num args rt body = Some lf /\
         forall vs, eval_fun args rt body vs = None).
@@ -2153,7 +2536,7 @@ Proof.
     set (num := fun s : sname => match s with [1; i] => i | [2; i] => 8 + i | _ => 99 end%nat).
     exists num, (fun _ => false), (arg_env args), [(1%nat, VI 8 0); (2%nat, VC 0)],
            (EBin AoXor (EName 1%nat) (EName 2%nat)). eexists.
-    refine (conj _ (conj (arg_env_canon args) (conj (arg_env_tyok args eq_refl) (conj _ eq_refl)))).
+    refine (conj _ (conj (arg_env_canon args) (conj (arg_env_ne args eq_refl) (conj _ eq_refl)))).
     + apply (arg_env_ok num (fun _ => false) args [VI 8 0; VC 0]).
       constructor; [vm_compute; reflexivity|]. constructor; [vm_compute; reflexivity|constructor].
     + vm_compute. reflexivity.
@@ -2207,7 +2590,7 @@ Section Total.
   Variables (G : env) (V : venv).
   Hypothesis Hok : env_ok num rho G V.
   Hypothesis Hcan : env_canon G.
-  Hypothesis Htok : env_tyok G.
+  Hypothesis Htok : env_ne G.
   Hypothesis Hib : ib_env G.
 
   Definition total_at (e : pexp) : Prop :=
@@ -2386,7 +2769,7 @@ End Total.
 
 (* an accepted expression of the fragment has a value, and denotes it *)
 Theorem trans_exp_total num rho G V e r :
-  env_ok num rho G V -> env_canon G -> env_tyok G -> ib_env G -> frag e = true -> trans_exp num G e = Some r ->
+  env_ok num rho G V -> env_canon G -> env_ne G -> ib_env G -> frag e = true -> trans_exp num G e = Some r ->
   exists v, eval_exp V e = Some v /\ den rho r = Some v.
 Proof.
   intros Hok Hcan Htok Hib F Ht.
@@ -2407,14 +2790,16 @@ Qed.
 (* statements collected for Prop_C01_texp.v                            *)
 (* ================================================================== *)
 Lemma trans_exp_type num rho G V e r v :
-  env_ok num rho G V -> env_canon G -> env_tyok G ->
+  env_ok num rho G V -> env_canon G -> env_good G ->
   trans_exp num G e = Some r -> eval_exp V e = Some v ->
-  type_of v = fst r /\ length (flat (snd r)) = ty_size (fst r) /\ wf_res r.
+  type_of v = fst r /\ length (flat (snd r)) = ty_size (fst r) /\ wf_res r
+  /\ (pexp_ne e = true -> ty_good (fst r) = true).
 Proof.
   intros H1 H2 H3 H4 H5.
-  pose proof (trans_exp_sound num rho G V e r v H1 H2 H3 H4 H5) as H.
+  pose proof (trans_exp_sound num rho G V e r v H1 H2 (env_good_ne G H3) H4 H5) as H.
   apply decode_type in H. rewrite map_length in H. destruct H as [A B].
-  repeat split; try assumption. exact (trans_exp_wf num rho G V H1 H2 H3 e r v H4 H5).
+  repeat split; try assumption; [exact (trans_exp_wf num rho G V H1 H2 H3 e r v H4 H5)|].
+  intros Hn. rewrite <- A. exact (trans_exp_good num rho G V H1 H2 H3 e Hn r v H4 H5).
 Qed.
 
 Lemma rejects_constants num G :
